@@ -72,6 +72,23 @@ def contains(t, sub):
     return any(s == sub for s in subterms(t))
 
 
+REV_SLICE = ("slice", ("const", None), ("const", None), ("const", -1))
+
+
+def iteration_layers(t):
+    """reversed(list(enumerate(x))) -> (['reversed', 'list', 'enumerate'], x);  x[::-1] counts as reversed"""
+    layers = []
+    while True:
+        if t[0] == "call" and t[1][0] == "glob" and t[1][1].startswith("ext:builtins.") and len(t[2]) == 1 and t[1][1].split(".")[-1] in ("reversed", "list", "tuple", "enumerate", "sorted", "iter"):
+            layers.append(t[1][1].split(".")[-1])
+            t = t[2][0]
+        elif t[0] == "sub" and t[2] == REV_SLICE:
+            layers.append("reversed")
+            t = t[1]
+        else:
+            return layers, t
+
+
 def strip_sites(t):
     """drop the occurrence numbers of opaque calls (for agreement checks)"""
     if not isinstance(t, tuple):
@@ -698,8 +715,27 @@ class Interp:
                 return prog.classes.get(fi.cls.mro[1])
         return None
 
+    @staticmethod
+    def flatten_args(args, kwargs):
+        """f(*(a, *b)) == f(a, *b);  f(**{'k': v, **m}) == f(k=v, **m)"""
+        out = []
+        for a in args:
+            if a[0] == "star" and a[1][0] in ("tuple", "list"):
+                out.extend(Interp.flatten_args(a[1][1], ())[0])
+            else:
+                out.append(a)
+        kw = list(kwargs)  # ** of a dict *value* is kept: the mapping may have been mutated since it was built
+        return tuple(out), tuple(kw)
+
     def apply(self, f, args, kwargs, path, node, awaited=False):
         lineno = getattr(node, "lineno", 0)
+        args, kwargs = self.flatten_args(args, kwargs)
+        # functools.partial(g, *a, **k)(*b, **l)  ==  g(*a, *b, **k, **l)
+        if f[0] == "call" and f[1] == ("glob", "ext:functools.partial") and f[2] and f[2][0][0] != "star":
+            return self.apply(f[2][0], tuple(f[2][1:]) + args, tuple(f[3]) + kwargs, path, node, awaited)
+        # getattr(x, "name")  ==  x.name
+        if f == ("glob", "ext:builtins.getattr") and len(args) == 2 and not kwargs and args[1][0] == "const" and isinstance(args[1][1], str):
+            return [("value", path, self.read_attr(args[0], args[1][1], path, node))]
         n = self.fresh(path)
         callterm = ("call", f, args, kwargs, n)
         path.ev("call", callterm, lineno, awaited, path.comp_depth > 0)
@@ -873,6 +909,15 @@ class Interp:
             return None if t is None else (not t)
         if k == "cmp":
             return self.compare(v, path)
+        if k == "call" and v[1] == ("glob", "ext:builtins.isinstance") and len(v[2]) == 2 and is_exc(v[2][0]):
+            c = v[2][1]
+            names = [c] if c[0] != "tuple" else list(c[1])
+            if all(n[0] == "glob" for n in names):
+                mro = libfacts.exc_mro(v[2][0][1], self.program)
+                if v[2][0][1].startswith("rep:") and not any(n[1] in mro for n in names):
+                    # a representative is "some class the code does not name": it is none of the named ones
+                    return False
+                return any(n[1] in mro for n in names)
         if v in path.facts:
             return path.facts[v]
         t = path.facts.get(("truthy", v))
@@ -905,8 +950,27 @@ class Interp:
         a, b, flipped = self._relkey(l, r)
         path.rel[(a, b)] = frozenset(FLIP[x] for x in s) if flipped else frozenset(s)
 
+    LEN = ("glob", "ext:builtins.len")
+
+    def _len_test(self, op, l, r):
+        """len(x) <op> 0|1  ->  (x, truthiness the comparison expresses) or None"""
+        flip = {"<": ">", ">": "<", "<=": ">=", ">=": "<=", "==": "==", "!=": "!="}
+        if r[0] == "call" and r[1] == self.LEN and l[0] == "const":
+            l, r, op = r, l, flip.get(op)
+        if not (l[0] == "call" and l[1] == self.LEN and len(l[2]) == 1 and r[0] == "const" and op):
+            return None
+        n = r[1]
+        table = {(">", 0): True, ("!=", 0): True, (">=", 1): True, ("==", 0): False, ("<=", 0): False, ("<", 1): False}
+        if (op, n) in table:
+            return l[2][0], table[(op, n)]
+        return None
+
     def compare(self, term, path) -> Optional[bool]:
         _c, op, l, r = term
+        lt = self._len_test(op, l, r)
+        if lt is not None:
+            t = self.truth(lt[0], path)
+            return None if t is None else (t == lt[1])
         if op in ("is", "is not", "==", "!=") and (l == NONE or r == NONE):
             other = l if r == NONE else r
             t = self.nullness(other, path)
@@ -954,6 +1018,9 @@ class Interp:
             return self.assume(v[2], not truth, path)
         if k == "cmp":
             _c, op, l, r = v
+            lt = self._len_test(op, l, r)
+            if lt is not None:
+                return self.assume(lt[0], truth == lt[1], path)
             if op in ("is", "is not", "==", "!=") and (l == NONE or r == NONE):
                 other = l if r == NONE else r
                 path.facts[("isnone", other)] = truth if op in ("is", "==") else (not truth)
